@@ -543,8 +543,8 @@ class Gen:
         ns = p.fresh_name(self.rng, "n")
         head = ".import * as "
         ln = self.emit(main, '%s%s from "%s"' % (head, ns, fname))
-        p.occs.append(Occ(main, ln, len(head), ns, "ns_def", note="namespace alias"))
         nd = Def(ns, "ns", root, main, ln, len(head))
+        p.occs.append(Occ(main, ln, len(head), ns, "ns_def", d=nd, note="namespace alias"))
         nd.block = froot
         root.defs[ns] = nd
         p.aliases.append((ns, froot))
@@ -641,7 +641,7 @@ def ground_truth(p, asm):
         elif o.role in ("invoke", "imp_name", "imp_alias", "defined", "arg", "redef", "reuse"):
             o.truth = o.d       # structural: unique names / named file
         elif o.role == "ns_def":
-            o.truth = "none"
+            o.truth = o.d          # the namespace is defined by its name in `.import * as ns`
         elif o.role in ("anon_label", "brace"):
             o.truth = "brace"
         elif o.role == "param_uninvoked":
@@ -736,13 +736,20 @@ def resolve_chain(p, u, d):
                 if cur is None:
                     ok = False
                     break
-                truths.append(cur.label if cur.kind == "label" else "none")
+                if cur.kind == "label":
+                    truths.append(cur.label)
+                elif cur.kind == "file" and cur.file != "main.asm":
+                    # the top level of an imported file: what is around it depends on how it was imported (an exported
+                    # label block hangs below the importing scope or the `as` namespace): not decided lexically
+                    truths.append("undecided")
+                else:
+                    truths.append("none")
             else:
                 dd = cur.defs.get(seg)
                 if dd is None or dd.block is None:
                     ok = False
                     break
-                truths.append(dd if dd.kind != "ns" else "none")
+                truths.append(dd)
                 cur = dd.block
         if ok and cur.defs.get(path[-1]) is d:
             walks.append(truths)
@@ -750,7 +757,7 @@ def resolve_chain(p, u, d):
     if walks:
         for i in range(len(path) - 1):
             vals = {id(w[i]) if not isinstance(w[i], str) else w[i] for w in walks}
-            if len(vals) == 1:
+            if len(vals) == 1 and walks[0][i] != "undecided":
                 out[i] = walks[0][i]
     return out
 
